@@ -12,3 +12,21 @@ claim("C14",
       "Reference = spglib Hall database in its default setting (trusted as the International Tables). 8-decimal floats are rationalised to the unique "
       "small-denominator rational. Ground identities are decided by exact rational arithmetic, quantified ones by z3.",
       "exhaustive table obligations: exact rational arithmetic + z3 (LRA/LIA) per entry", "DESIGN.md §3 C14")
+
+ENGINES.append({"name": "pyvc", "path": "engine/pyvc.py", "serves_properties": ["C01", "C05", "C06", "C07", "C08", "C09", "C11", "C12", "C13", "C15", "C16", "C17", "C19", "C20"],
+  "kind_free_text": "symbolic executor over the ast of the real source files (re-read on every run): proxy values, replay-based path forking, calls by contract, loop invariants, named obligations discharged by z3 (linearised abstraction first, full nonlinear second, cvc5 for unknowns); numpy/ASE modelled by shims = assumed contracts"})
+
+claim("C19",
+      "get_radii is a function of (preset, Z) on a finite domain: its real source is executed by the engine on every point (3 presets x every Z of the ASE tables, "
+      "NaN-aware float semantics) and compared with the documented tables; custom arrays: identity obligation; uniformity: data-flow frame obligations on each consumer "
+      "(the raw parameter is read exactly once, by get_radii) so that preset and resolved array give the same computation by congruence. Complete for the stated domain.",
+      "ASE tables are the documented tables; numpy fancy indexing; the frame obligations are syntactic (AST) and cover get_dimensionality, get_distances, SBC.get_clusters.",
+      "exhaustive evaluation of the real function over its finite domain + AST data-flow frame obligations", "DESIGN.md §3 C19")
+
+claim("C20",
+      "Contracts on to_scaled, to_cartesian, get_wrapped_positions, swap_basis, complete_cell, get_minimized_cell, get_center_of_mass, get_moments_of_inertia, "
+      "proved by symbolic execution of the real source for a symbolic cell, symbolic pbc and a symbolic number of atoms (row-generic arrays, Skolemised argmin/argmax), "
+      "in real arithmetic. get_minimized_cell: code-level facts (Step A) + pure nonlinear lemma (Step B). Inertia tensor and centre of mass: the summand of every "
+      "sum over atoms equals the documented formula.",
+      "Floats as reals (L-FLOAT); numpy/ASE shims are assumed contracts (A-NP, A-ASE); translation covariance of the circular mean and the eigen-solver are not machine-checked.",
+      "symbolic execution of the real source + z3 (linearised abstraction, nonlinear lemmas)", "DESIGN.md §3 C20")
